@@ -26,7 +26,9 @@ MODELLED = ["evo/core/result.py:merge_results", "evo/core/result.py:Result.__ini
 
 RULE = ("case kinds: merge (0..8 results; statistics and arrays under 1..5 keys; per-key array lengths equal / unequal in one "
         "key / empty; dict insertion orders permuted per result; one statistic or array key differing in one result; dyadic "
-        "grid values compared exactly, random values within a few ulp of the exact rational mean; inputs snapshotted before "
+        "grid values compared exactly, random values within a few ulp of the exact rational mean; results holding one ndarray object "
+        "under several keys or views of one base array under several keys, at position 0 and elsewhere, float64 and int64 "
+        "arrays; inputs snapshotted before "
         "and after) compared with ResultMerge.mergeResults (structure: key order, lengths, info exactly); table (1..5 result "
         "zips written by main_ape.ape / main_rpe.rpe + file_interface.save_res_file, then evo.main_res.run in-process with "
         "--save_table and optionally --merge / --use_filenames; CSV parsed back, zip members read independently with "
@@ -53,6 +55,13 @@ def gen_merge(r, n=None, corpus=None):
     odd_result = r.randrange(n)
     odd_key = r.choice(akeys) if akeys else None
     permute = r.random() < 0.5
+    # aliasing plan: some results hold ONE ndarray object under several keys, or views of one base array
+    alias_mode = r.choice([None, None, None, "same", "same", "views"]) if len(akeys) >= 2 else None
+    alias_keys = r.sample(akeys, r.randint(2, min(3, len(akeys)))) if alias_mode else []
+    alias_at = set() if not alias_mode else r.choice([{0}, {0}, {r.randrange(n)}, set(range(n)), {0, n - 1}])
+    if alias_mode == "same":
+        for k in alias_keys:
+            base_len[k] = base_len[alias_keys[0]]
     results = []
     for i in range(n):
         sk, ak = list(skeys), list(akeys)
@@ -65,9 +74,27 @@ def gen_merge(r, n=None, corpus=None):
                 lens[k] = r.randint(0, 6)
         elif mode == "one-differs" and i == odd_result and odd_key is not None:
             lens[odd_key] = base_len[odd_key] + r.randint(1, 3)
-        results.append({"info": {"title": f"t{i}", "est_name": f"dir{i}/est{i}.txt", "label": "APE (m)"},
-                        "stats": [[k, gen_value(r, grid)] for k in sk],
-                        "arrays": [[k, [gen_value(r, grid) for _ in range(lens[k])]] for k in ak]})
+        res = {"info": {"title": f"t{i}", "est_name": f"dir{i}/est{i}.txt", "label": "APE (m)"},
+               "stats": [[k, gen_value(r, grid)] for k in sk],
+               "arrays": [[k, [gen_value(r, grid) for _ in range(lens[k])]] for k in ak]}
+        if r.random() < 0.15:
+            res["dtype"] = "int"
+            res["arrays"] = [[k, [float(r.randint(-64, 64)) for _ in a]] for k, a in res["arrays"]]
+        if i in alias_at:
+            arrs = dict((k, a) for k, a in res["arrays"])
+            if alias_mode == "same":
+                ln = len(arrs[alias_keys[0]]) if mode != "unequal" else r.randint(0, 6)
+                vals = (arrs[alias_keys[0]] + [1.0] * 6)[:ln]
+                res["arrays"] = [[k, list(vals) if k in alias_keys else a] for k, a in res["arrays"]]
+                res["alias"] = {"mode": "same", "keys": list(alias_keys)}
+            else:
+                need = max(len(arrs[k]) for k in alias_keys)
+                base = [gen_value(r, grid) if res.get("dtype") != "int" else float(r.randint(-64, 64))
+                        for _ in range(need + r.randint(0, 3))]
+                sl = {k: [r.randint(0, len(base) - len(arrs[k])), len(arrs[k])] for k in alias_keys}
+                res["arrays"] = [[k, base[sl[k][0]:sl[k][0] + sl[k][1]] if k in alias_keys else a] for k, a in res["arrays"]]
+                res["alias"] = {"mode": "views", "base": base, "slices": sl}
+        results.append(res)
     keymut = None
     if n >= 2 and r.random() < 0.2:
         i = r.randrange(n)
@@ -81,7 +108,8 @@ def gen_merge(r, n=None, corpus=None):
         else:
             d[r.randrange(len(d))][0] = "renamed"
         keymut = [i, which, kind]
-    return {"kind": "merge", "grid": grid, "mode": mode, "permuted": permute, "keymut": keymut, "results": results}
+    return {"kind": "merge", "grid": grid, "mode": mode, "permuted": permute, "keymut": keymut, "results": results,
+            "aliasing": alias_mode}
 
 
 def gen_filespec(r, tag):
@@ -141,6 +169,14 @@ def gen_cases(ctx):
         {"info": {"est_name": "b"}, "stats": [["rmse", 2.0]], "arrays": [["e", [3.0]]]},
         {"info": {"est_name": "c"}, "stats": [["rmse", 6.0]], "arrays": [["e", [4.0, 5.0, 6.0]]]}]}
     yield {"kind": "merge", "grid": True, "corpus": "none", "results": []}
+    yield {"kind": "merge", "grid": True, "corpus": "C13-4", "aliasing": "same", "results": [
+        {"info": {"est_name": "a"}, "stats": [["rmse", 1.0]], "arrays": [["a", [1.0, 2.0]], ["b", [1.0, 2.0]]],
+         "alias": {"mode": "same", "keys": ["a", "b"]}},
+        {"info": {"est_name": "b"}, "stats": [["rmse", 3.0]], "arrays": [["a", [3.0, 4.0]], ["b", [5.0, 8.0]]]}]}
+    yield {"kind": "merge", "grid": True, "corpus": "views", "aliasing": "views", "results": [
+        {"info": {}, "stats": [["rmse", 1.0]], "arrays": [["a", [1.0, 2.0]], ["b", [2.0, 3.0]]], "dtype": "int",
+         "alias": {"mode": "views", "base": [1.0, 2.0, 3.0], "slices": {"a": [0, 2], "b": [1, 2]}}},
+        {"info": {}, "stats": [["rmse", 3.0]], "arrays": [["b", [5.0, 8.0]], ["a", [3.0, 4.0]]]}]}
     for _ in range(3000 if not th else 40000):
         yield gen_merge(r)
     for _ in range(150 if not th else 2000):
@@ -177,8 +213,23 @@ def build_result(d):
     res.add_info(dict(d["info"]))
     for k, v in d["stats"]:
         res.stats[k] = v
+    dt = np.int64 if d.get("dtype") == "int" else float
+    al = d.get("alias") or {}
+    shared, base = {}, None
+    if al.get("mode") == "views":
+        base = np.array(al["base"], dtype=dt)
     for k, a in d["arrays"]:
-        res.add_np_array(k, np.array(a, dtype=float))
+        arr = None
+        if al.get("mode") == "same" and k in al["keys"]:
+            key = tuple(a)                      # one object for all alias keys holding these values
+            if key not in shared:
+                shared[key] = np.array(a, dtype=dt)
+            arr = shared[key]
+        elif base is not None and k in al["slices"]:
+            off, ln = al["slices"][k]
+            if [float(x) for x in base[off:off + ln]] == [float(x) for x in a]:
+                arr = base[off:off + ln]           # a view of the common base array
+        res.add_np_array(k, arr if arr is not None else np.array(a, dtype=dt))
     return res
 
 
@@ -454,6 +505,11 @@ def judge_merge(ctx, case, impl, outs):
     out = outs[0]
     ctx.count("dist", "merge:n=%d" % n)
     ctx.count("dist", "merge:" + case.get("mode", "corpus") + (":permuted" if case.get("permuted") else ""))
+    if case.get("aliasing"):
+        where = sorted(i for i, d in enumerate(rs) if d.get("alias"))
+        ctx.count("dist", "merge:aliased-%s:%s" % (case["aliasing"], "first" if where[:1] == [0] else "later" if where else "none"))
+    if any(d.get("dtype") == "int" for d in rs):
+        ctx.count("dist", "merge:int-dtype")
     # ---------------- correspondence with the model
     if out.startswith("E_"):
         ctx.count("branch", out)
